@@ -527,7 +527,7 @@ struct ChannelWorld : World {
         S.fam = (int)(op.u(1) % NFAM);
         Bytes key = bytes_of(fam_keylen(S.fam), op.u(2) ^ c.salt);
         uint8_t n[16];
-        make_nonce(n, op.u(2), (unsigned)op.u(3));
+        make_nonce(n, op.u(2) ^ c.salt, (unsigned)op.u(3)); // twin runs differ in the nonce too (it is state an object holds); the carry chain is the plan's
         int kp = is_cpp(S.fam) ? (int)(op.u(4) % 2) : 0;
         ep_setup(S.A, S.fam, key, n, kp);
         ep_setup(S.B, S.fam, key, n, is_cpp(S.fam) ? (int)((op.u(4) >> 1) % 2) : 0);
@@ -552,7 +552,7 @@ struct ChannelWorld : World {
         if (!S.live) return;
         Endpoint &A = S.A;
         size_t mlen = (size_t)(op.u(1) % 4096), adlen = (size_t)(op.u(2) % 300);
-        Bytes m = bytes_of(mlen, op.u(3) ^ c.salt ^ 1), ad = bytes_of(adlen, op.u(3) ^ 2);
+        Bytes m = bytes_of(mlen, op.u(3) ^ c.salt ^ 1), ad = bytes_of(adlen, op.u(3) ^ 2 ^ c.salt);
         Rng chunker(op.u(3) ^ 77);
         int cls = fam_cls(S.fam);
         sync_explicit_nonce(c, A, "before_send");
